@@ -2,7 +2,9 @@ import Litep2pVerif.Common.Parse
 import Litep2pVerif.Generated.Consts
 import Litep2pVerif.Model.Bitswap.Prefix
 import Litep2pVerif.Model.Bitswap.Batch
-/-! Line-protocol driver for the bitswap models (C20). Stateless.
+import Litep2pVerif.Model.Bitswap.Proto
+/-! Line-protocol driver for the bitswap models (C20). The codec / batching operations are
+stateless; `pnew` starts a protocol-level session (`Model/Bitswap/Proto.lean`).
 
 The hash family is instantiated here: `supported` is the code table of `multihash-codetable` with
 the features `sha2`, `blake2b`, `sha3` (Cargo.toml); `digest` is the table of digests handed in with
@@ -10,8 +12,8 @@ the operation (`h=<hex>`, computed outside the model). -/
 namespace Litep2pVerif.Driver.C20
 open Litep2pVerif Litep2pVerif.Bitswap Parse
 
-abbrev State := Unit
-def init : State := ()
+abbrev State := Option Proto.St
+def init : State := none
 
 /-- `multihash_codetable::Code` with features sha2, blake2b, sha3. -/
 def supportedCodes : List Nat :=
@@ -162,11 +164,270 @@ def batchesLine (v codec mh dlen sizes pres : String) : String :=
     | none => "bad-op"
   | _, _, _, _, _, _ => "bad-op"
 
+/-! ## protocol level -/
+section ProtoOps
+open Proto
+
+def limits : Limits := ⟨Consts.MAX_BATCH_SIZE, Consts.MAX_BATCH_BLOCKS, Consts.MAX_MESSAGE_SIZE, Consts.MAX_MESSAGE_SIZE⟩
+
+def peer? (s : String) : Option Nat := s.toNat?.bind fun p => if 1 ≤ p ∧ p ≤ 9 then some p else none
+
+def idx? (pfx : Char) (s : String) : Option Nat :=
+  match s.toList with
+  | c :: rest => if c = pfx ∧ !rest.isEmpty then (String.ofList rest).toNat? else none
+  | [] => none
+
+/-- `k=<v>/<codec>/<mh>/<dlen>`: the kind, the prefix length and the CID length. -/
+def kind? (s : String) : Option (Kind × Nat × Nat) :=
+  match s.splitOn "=" with
+  | ["k", v] =>
+    match v.splitOn "/" with
+    | [v, codec, mh, dlen] =>
+      match v.toNat?, u64? codec, u64? mh, dlen.toNat? with
+      | some v, some codec, some mh, some dlen =>
+        if v > 1 ∨ dlen < 4 ∨ dlen > 64 then none else
+        match cidNew v codec mh (List.replicate dlen 0xab) with
+        | some cid => some (⟨v, codec, mh, dlen⟩, cid.toPrefix.toBytes.length, cid.toBytes.length)
+        | none => none
+      | _, _, _, _ => none
+    | _ => none
+  | _ => none
+
+def entry? (k : Kind × Nat × Nat) (s : String) : Option REntry :=
+  match s.toList with
+  | 'b' :: rest =>
+    match (String.ofList rest).splitOn "." with
+    | [size, fill] =>
+      match size.toNat?, fill.toNat? with
+      | some size, some fill =>
+        if size > 2 ^ 22 ∨ fill > 255 ∨ (size = 0 ∧ fill ≠ 0) then none
+        else some (.block ⟨k.1, k.2.1, size, fill⟩)
+      | _, _ => none
+    | _ => none
+  | 'h' :: rest => (String.ofList rest).toNat?.bind fun i =>
+      if i < 2 ^ 32 ∧ !rest.isEmpty then some (.presence ⟨k.1, k.2.2, i, 0⟩) else none
+  | 'd' :: rest => (String.ofList rest).toNat?.bind fun i =>
+      if i < 2 ^ 32 ∧ !rest.isEmpty then some (.presence ⟨k.1, k.2.2, i, 1⟩) else none
+  | _ => none
+
+def want? (k : Kind × Nat × Nat) (s : String) : Option Want :=
+  match s.toList with
+  | 'b' :: rest => (String.ofList rest).toNat?.bind fun i =>
+      if i < 2 ^ 32 ∧ !rest.isEmpty then some ⟨k.1, k.2.2, i, 0⟩ else none
+  | 'h' :: rest => (String.ofList rest).toNat?.bind fun i =>
+      if i < 2 ^ 32 ∧ !rest.isEmpty then some ⟨k.1, k.2.2, i, 1⟩ else none
+  | _ => none
+
+def listOf {α : Type} (f : String → Option α) (s : String) : Option (List α) :=
+  if s = "-" then some [] else
+  if (s.splitOn ",").length > 64 then none else allSome ((s.splitOn ",").map f)
+
+/-- `[] | ok | fail=<k>[.<off>] | stall=<k>` -/
+def plan? : List String → Option (Option Nat × Nat)
+  | [] => some (none, 0)
+  | ["ok"] => some (none, 0)
+  | [p] =>
+    match p.splitOn "=" with
+    | ["fail", v] =>
+      match v.splitOn "." with
+      | [k] => k.toNat?.map fun k => (some k, 0)
+      | [k, off] =>
+        match k.toNat?, off.toNat? with
+        | some k, some off => if off > 2 then none else some (some k, off)
+        | _, _ => none
+      | _ => none
+    | ["stall", k] => k.toNat?.map fun k => (some k, 0)
+    | _ => none
+  | _ => none
+
+def showKind (k : Kind) : String := s!"{k.v}/{k.codec}/{k.mh}/{k.dlen}"
+
+def dashJoin (sep : String) (l : List String) : String := if l.isEmpty then "-" else joinWith sep l
+
+def showEntry : REntry → String
+  | .block b => s!"b{b.size}.{b.fill}"
+  | .presence p => (if p.ty = 0 then "h" else "d") ++ toString p.idx
+
+def showWantShort (w : Want) : String := (if w.ty = 0 then "b" else "h") ++ toString w.idx
+
+def showAction : Action → String
+  | .request cids =>
+    "Q[" ++ (match cids with | w :: _ => showKind w.kind | [] => "-") ++ "|" ++ dashJoin "," (cids.map showWantShort) ++ "]"
+  | .response entries =>
+    "R[" ++ (match entries with
+      | .block b :: _ => showKind b.kind
+      | .presence p :: _ => showKind p.kind
+      | [] => "-") ++ "|" ++ dashJoin "," (entries.map showEntry) ++ "]"
+
+def showWFrame : WFrame → String
+  | .resp (.blocks batch len) =>
+    s!"B{len}/" ++ (match batch with | b :: _ => showKind b.kind | [] => "-") ++ "/" ++
+      joinWith "+" (batch.map fun b => s!"{b.size}.{b.fill}")
+  | .resp (.presences ps len) =>
+    s!"P{len}/" ++ (match ps with | p :: _ => showKind p.kind | [] => "-") ++ "/" ++
+      joinWith "+" (ps.map fun p => s!"{p.idx}.{p.ty}")
+  | .req cids len =>
+    match cids with
+    | [] => s!"E{len}"
+    | w :: _ => s!"W{len}/" ++ showKind w.kind ++ "/" ++ joinWith "+" (cids.map showWantShort)
+
+/-- insertion sort by key (the adapters sort what came out of a hash map) -/
+def insertBy {α : Type} (key : α → Nat) (x : α) : List α → List α
+  | [] => [x]
+  | y :: ys => if key x ≤ key y then x :: y :: ys else y :: insertBy key x ys
+
+def sortBy {α : Type} (key : α → Nat) (l : List α) : List α := l.foldr (insertBy key) []
+
+def showState (st : St) : String :=
+  "out=" ++ dashJoin "," ((sortBy Prod.fst st.outbound).map fun e => s!"{e.1}:s{e.2}") ++
+  " pend=" ++ dashJoin "," ((sortBy Prod.fst st.pendingOutbound).map fun e =>
+      s!"{e.1}:" ++ dashJoin "" (e.2.map showAction)) ++
+  " subs=" ++ dashJoin "," ((sortBy Prod.fst st.pendingSubstreams).map fun e => s!"s{e.1}:{e.2}") ++
+  " dials=" ++ dashJoin "," ((sortBy id st.pendingDials).map toString) ++
+  " in=" ++ dashJoin "," ((sortBy Prod.fst st.inbound).map fun e => toString e.1)
+
+/-- frames written per substream (attempts of one operation concern one substream) -/
+def showWrites (atts : List Attempt) : String :=
+  match atts with
+  | [] => "-"
+  | a :: _ =>
+    let words := atts.flatMap fun x =>
+      x.written.map showWFrame ++ (if x.partialBytes > 0 then [s!"~{x.partialBytes}"] else [])
+    if words.isEmpty then "-" else s!"s{a.sub}=" ++ joinWith "|" words
+
+def showOut (res : Res) (o : Out) (events : String) (st : St) : String :=
+  (match res with
+   | .ok => "ok"
+   | .none => "none"
+   | .inName k => s!"i{k}") ++ ";" ++
+  dashJoin "," (o.dials.map (fun p => s!"dial:{p}") ++
+    (sortBy Prod.snd o.opened).map (fun e => s!"open:{e.1}:s{e.2}")) ++ ";" ++
+  events ++ ";" ++ showWrites o.attempts ++ ";" ++ showState st
+
+/-- `<hex>/<type>+…` -/
+def typed? (s : String) : Option (List (Bytes × Nat)) :=
+  allSome ((s.splitOn "+").map fun it =>
+    match it.splitOn "/" with
+    | [h, t] => match hexOpt? h, t.toNat? with
+      | some h, some t => if t < 2 ^ 31 then some (h, t) else none
+      | _, _ => none
+    | _ => none)
+
+structure InMsg where
+  wantlist : Option (List (Bytes × Nat)) := some []
+  payload : List (Bytes × Bytes × Bytes) := []
+  presences : List (Bytes × Nat) := []
+
+def inMsg? : List String → InMsg → Option InMsg
+  | [], m => some m
+  | a :: rest, m =>
+    if a = "nowl" then inMsg? rest { m with wantlist := none } else
+    match a.splitOn "=" with
+    | ["w", v] => (typed? v).bind fun w => inMsg? rest { m with wantlist := some w }
+    | ["b", v] => (allSome ((v.splitOn "+").map item?)).bind fun b => inMsg? rest { m with payload := m.payload ++ b }
+    | ["p", v] => (typed? v).bind fun p => inMsg? rest { m with presences := m.presences ++ p }
+    | _ => none
+
+def showInEvents (p : Nat) (m : InMsg) : String :=
+  let H := family (m.payload.flatMap entry)
+  let req := match requestEvent m.wantlist with
+    | none => []
+    | some cids => [s!"req:{p}:" ++ joinWith "+" (cids.map fun c => bytesHex c.1.toBytes ++ "/" ++ toString c.2)]
+  let resp := match responseEvent H (m.payload.map fun b => (b.1, b.2.1)) m.presences with
+    | none => []
+    | some items => [s!"resp:{p}:" ++ joinWith "+" (items.map fun
+        | .block cid data => "B" ++ bytesHex cid.toBytes ++ ":" ++ showData data
+        | .presence cid ty => "P" ++ bytesHex cid.toBytes ++ "/" ++ toString ty)]
+  dashJoin "," (req ++ resp)
+
+def protoOp (st : St) (op : Op) (events : String) : State × String :=
+  let r := Proto.step limits st op
+  (some r.1, showOut r.2.1 r.2.2 events r.1)
+
+def protoStep (st : St) (ts : List String) : State × String :=
+  let bad : State × String := (some st, "bad-op")
+  match ts with
+  | ["conn", p] => match peer? p with
+    | some p => protoOp st (.conn p true) "-"
+    | none => bad
+  | ["conn", p, "dead"] => match peer? p with
+    | some p => protoOp st (.conn p false) "-"
+    | none => bad
+  | ["disc", p] => match peer? p with
+    | some p => protoOp st (.disc p) "-"
+    | none => bad
+  | ["conndead", p] => match peer? p with
+    | some p => protoOp st (.conndead p) "-"
+    | none => bad
+  | ["dialfail", p] => match peer? p with
+    | some p => protoOp st (.dialfail p) "-"
+    | none => bad
+  | ["view", p, v] =>
+    match peer? p, (match v with
+      | "c" => some View.connected
+      | "g" => some View.dialing
+      | "d" => some View.disconnected
+      | _ => none) with
+    | some p, some v => protoOp st (.view p v) "-"
+    | _, _ => bad
+  | "subopen" :: s :: rest =>
+    match idx? 's' s, plan? rest with
+    | some s, some pl => protoOp st (.subopen s pl.1 pl.2) "-"
+    | _, _ => bad
+  | ["subfail", s] => match idx? 's' s with
+    | some s => protoOp st (.subfail s) "-"
+    | none => bad
+  | "plan" :: s :: rest =>
+    if rest.isEmpty then bad else
+    match idx? 's' s, plan? rest with
+    | some s, some pl => protoOp st (.plan s pl.1 pl.2) "-"
+    | _, _ => bad
+  | ["resp", p, k, es] =>
+    match peer? p, kind? k with
+    | some p, some k => match listOf (entry? k) es with
+      | some es => protoOp st (.command p (.response es)) "-"
+      | none => bad
+    | _, _ => bad
+  | ["req", p, k, cs] =>
+    match peer? p, kind? k with
+    | some p, some k => match listOf (want? k) cs with
+      | some cs => protoOp st (.command p (.request cs)) "-"
+      | none => bad
+    | _, _ => bad
+  | ["insub", p] => match peer? p with
+    | some p => protoOp st (.insub p) "-"
+    | none => bad
+  | "inmsg" :: i :: rest =>
+    match idx? 'i' i, inMsg? rest {} with
+    | some k, some m =>
+      match st.inboundOwner k with
+      | some p => protoOp st (.inmsg k true) (showInEvents p m)
+      | none => protoOp st (.inmsg k true) "-"
+    | _, _ => bad
+  | ["inbad", i, h] =>
+    match idx? 'i' i, hexOpt? h with
+    | some k, some b => if b.isEmpty then bad else protoOp st (.inmsg k false) "-"
+    | _, _ => bad
+  | [op, i] =>
+    if op = "inbig" ∨ op = "inclose" ∨ op = "inreset" then
+      match idx? 'i' i with
+      | some k => protoOp st (.inend k) "-"
+      | none => bad
+    else bad
+  | _ => bad
+
+def protoWords : List String :=
+  ["conn", "disc", "conndead", "dialfail", "view", "subopen", "subfail", "plan", "resp", "req", "insub",
+   "inmsg", "inbad", "inbig", "inclose", "inreset"]
+
+end ProtoOps
+
 def step (st : State) (line : String) : State × String :=
   let ts := tokens line
   let h := (arg? "h" ts).bind hexOpt? |>.getD []
   let ts := ts.filter fun t => !t.startsWith "h="
   match ts with
+  | ["pnew"] => (some {}, "ok")
   | ["prefix_dec", hx] =>
     match hexOpt? hx with
     | none => (st, "bad-op")
@@ -196,6 +457,12 @@ def step (st : State) (line : String) : State × String :=
       | some rs => (st, "event " ++ joinWith " " (rs.map showBlock))
   | ["batches", v, codec, mh, dlen, sizes] => (st, batchesLine v codec mh dlen sizes "pres=0")
   | ["batches", v, codec, mh, dlen, sizes, pres] => (st, batchesLine v codec mh dlen sizes pres)
+  | w :: _ =>
+    if protoWords.contains w then
+      match st with
+      | some pst => protoStep pst ts
+      | none => (st, "bad-op")
+    else (st, "bad-op")
   | _ => (st, "bad-op")
 
 end Litep2pVerif.Driver.C20
